@@ -32,9 +32,10 @@ func solverCmd(name string, timeoutS int, file string) *exec.Cmd {
 	case "z3":
 		return exec.Command("z3", fmt.Sprintf("-T:%d", timeoutS), file)
 	case "z3-new":
-		return exec.Command("z3-new", fmt.Sprintf("-T:%d", timeoutS), file)
+		return exec.Command("z3-new", fmt.Sprintf("-T:%d", timeoutS), "-memory:6000", file)
 	case "cvc5":
-		return exec.Command("cvc5", fmt.Sprintf("--tlimit=%d", timeoutS*1000), "--produce-models", file)
+		// address-space cap so a runaway query ends as "unknown" instead of exhausting the machine
+		return exec.Command("sh", "-c", fmt.Sprintf("ulimit -v 8000000; exec cvc5 --tlimit=%d --produce-models %q", timeoutS*1000, file))
 	}
 	panic("unknown solver " + name)
 }
